@@ -3,4 +3,146 @@ import FinamModel.Grid
 /-! Lemmas about the structured-grid model of `Grid.lean`. -/
 namespace Finam
 
+/-! ### padding a shape with length-1 axes -/
+
+theorem prod_replicate_one (n : Nat) : prod (List.replicate n 1) = 1 := by
+  induction n with
+  | zero => rfl
+  | succ n ih => simp [List.replicate_succ, prod, ih]
+
+theorem prod_pad (sh : List Nat) (n : Nat) : prod (sh ++ List.replicate n 1) = prod sh := by
+  simp [prod_append, prod_replicate_one]
+
+theorem InB_replicate (n : Nat) : InB (List.replicate n 1) (List.replicate n 0) := by
+  induction n with
+  | zero => simp [InB]
+  | succ n ih => simp [List.replicate_succ, InB, ih]
+
+theorem InB_pad {sh ix : List Nat} (h : InB sh ix) (n : Nat) :
+    InB (sh ++ List.replicate n 1) (ix ++ List.replicate n 0) :=
+  InB_append h (InB_replicate n)
+
+theorem ravel_pad (o : Order) (sh ix : List Nat) (h : ix.length = sh.length) (n : Nat) :
+    ravel o (sh ++ List.replicate n 1) (ix ++ List.replicate n 0) = ravel o sh ix := by
+  induction n with
+  | zero => simp
+  | succ n ih =>
+    rw [List.replicate_succ', List.replicate_succ', ← List.append_assoc, ← List.append_assoc]
+    rw [ravel_pad_one o _ _ (by simp [h]), ih]
+
+/-! ### axes, directions, coordinates -/
+
+namespace SGrid
+
+theorem dirAxes_length (axes : List (List Rat)) (inc : List Bool) :
+    (dirAxes axes inc).length = axes.length := by
+  induction axes generalizing inc with
+  | nil => cases inc <;> simp [dirAxes]
+  | cons a as ih => cases inc with
+    | nil => simp [dirAxes]
+    | cons b bs => simp [dirAxes, ih]
+
+theorem dirAxes_map_length (axes : List (List Rat)) (inc : List Bool) :
+    (dirAxes axes inc).map List.length = axes.map List.length := by
+  induction axes generalizing inc with
+  | nil => cases inc <;> simp [dirAxes]
+  | cons a as ih => cases inc with
+    | nil => simp [dirAxes]
+    | cons b bs => cases b <;> simp [dirAxes, ih]
+
+theorem pick_length (axes : List (List Rat)) (ix : List Nat) (h : ix.length = axes.length) :
+    (pick axes ix).length = axes.length := by
+  simp [pick, h]
+
+theorem pick_append_take (axes p : List (List Rat)) (ix q : List Nat) (h : ix.length = axes.length) :
+    (pick (axes ++ p) (ix ++ q)).take axes.length = pick axes ix := by
+  induction axes generalizing ix with
+  | nil => cases ix <;> simp [pick] at *
+  | cons a as ih => cases ix with
+    | nil => simp at h
+    | cons i is =>
+      simp only [List.length_cons, Nat.add_right_cancel_iff] at h
+      have := ih is h
+      simp only [pick] at this
+      simp only [pick, List.cons_append, List.zipWith_cons_cons, List.length_cons, List.take_succ_cons]
+      rw [this]
+
+theorem pick_reverse (axes : List (List Rat)) (ix : List Nat) (h : ix.length = axes.length) :
+    (pick axes.reverse ix).reverse = pick axes ix.reverse := by
+  simp only [pick]
+  rw [List.reverse_zipWith (by simp [h])]
+  simp
+
+theorem cellAxis_length (ax : List Rat) (h : ax ≠ []) : (cellAxis ax).length = max (ax.length - 1) 1 := by
+  unfold cellAxis
+  have hpos : 0 < ax.length := List.length_pos_iff.mpr h
+  split
+  · rename_i hl
+    simp only [List.length_zipWith, List.length_tail]
+    omega
+  · omega
+
+theorem cellAxes_map_length (g : SGrid) (h : ∀ ax ∈ g.axes, ax ≠ []) :
+    g.cellAxes.map List.length = g.dims.map fun n => max (n - 1) 1 := by
+  simp only [cellAxes, dims, List.map_map]
+  apply List.map_congr_left
+  intro ax hax
+  simp [cellAxis_length ax (h ax hax)]
+
+/-! ### gen_points -/
+
+theorem genPoints_length (axes : List (List Rat)) (o : Order) (inc : List Bool) :
+    (genPoints axes o inc).length = prod (axes.map List.length) := by
+  simp only [genPoints, List.length_map, List.length_range, List.map_append, List.map_replicate,
+    List.length_cons, List.length_nil, Nat.zero_add]
+  rw [prod_pad, dirAxes_map_length]
+
+/-- the point stored at the flat position of multi-index `i` (xyz order, flattened in `o`) has the
+    coordinates picked from the direction-adjusted axes at `i` -/
+theorem genPoints_at (axes : List (List Rat)) (o : Order) (inc : List Bool) (i : List Nat)
+    (hi : InB (axes.map List.length) i) :
+    (genPoints axes o inc)[ravel o (axes.map List.length) i]? = some (pick (dirAxes axes inc) i) := by
+  have hlen : i.length = (dirAxes axes inc).length := by
+    rw [hi.length_eq, dirAxes_length]; simp
+  have hi' : InB ((dirAxes axes inc).map List.length) i := by rw [dirAxes_map_length]; exact hi
+  simp only [genPoints, List.map_append, List.map_replicate, List.length_cons, List.length_nil, Nat.zero_add]
+  generalize hn : 3 - (dirAxes axes inc).length = n
+  have hk : ravel o (axes.map List.length) i <
+      prod ((dirAxes axes inc).map List.length ++ List.replicate n 1) := by
+    rw [prod_pad, dirAxes_map_length]; exact ravel_lt o _ _ hi
+  rw [List.getElem?_map, List.getElem?_range hk]
+  simp only [Option.map_some]
+  congr 1
+  have hr : ravel o (axes.map List.length) i =
+      ravel o ((dirAxes axes inc).map List.length ++ List.replicate n 1) (i ++ List.replicate n 0) := by
+    rw [ravel_pad o _ _ (by simp [hlen]), dirAxes_map_length]
+  rw [hr, unravel_ravel o _ _ (InB_pad hi' n)]
+  exact pick_append_take _ _ _ _ hlen
+
+/-- the increasing axes the data live on: cell-centre axes or point axes -/
+def locAxes (g : SGrid) : List (List Rat) := if g.loc = .cells then g.cellAxes else g.axes
+
+theorem dataPoints_eq (g : SGrid) :
+    g.dataPoints = genPoints (g.locAxes) (pointOrder g.order g.rev) g.inc := by
+  unfold dataPoints locAxes points cellCenters
+  cases g.loc <;> simp
+
+theorem dataAxes_eq (g : SGrid) :
+    g.dataAxes = if g.rev then (dirAxes (g.locAxes) g.inc).reverse else dirAxes (g.locAxes) g.inc := rfl
+
+theorem locAxes_lengths (g : SGrid) (hne : ∀ ax ∈ g.axes, ax ≠ []) :
+    (g.locAxes).map List.length = if g.loc = .cells then g.dims.map (fun n => max (n - 1) 1) else g.dims := by
+  unfold locAxes
+  split
+  · exact cellAxes_map_length g hne
+  · rfl
+
+theorem dataShape_eq (g : SGrid) (hne : ∀ ax ∈ g.axes, ax ≠ []) :
+    g.dataShape = if g.rev then ((g.locAxes).map List.length).reverse else (g.locAxes).map List.length := by
+  rw [locAxes_lengths g hne]
+  unfold dataShape shapeFor
+  cases g.rev <;> cases g.loc <;> simp
+
+
+end SGrid
 end Finam
